@@ -85,6 +85,8 @@ func dirtyFields() []string {
 	}
 }
 
+const utf8BOM = "\xef\xbb\xbf"
+
 func genText(t *rapid.T, o Opts) (string, int) {
 	sep := sepOf(o)
 	style := rapid.IntRange(0, 11).Draw(t, "textstyle")
@@ -95,6 +97,9 @@ func genText(t *rapid.T, o Opts) (string, int) {
 			alphabet = append(alphabet, rune(o.Comma), rune(o.Comma))
 		}
 		s := rapid.StringOfN(rapid.SampledFrom(alphabet), 0, 24, -1).Draw(t, "raw")
+		if rapid.IntRange(0, 7).Draw(t, "raw-bom") == 0 {
+			s = utf8BOM + s
+		}
 		return s, strings.Count(s, "\n") + 1
 	}
 	dirty := style == 7 || style == 8
@@ -114,6 +119,10 @@ func genText(t *rapid.T, o Opts) (string, int) {
 	clean := cleanFields(sep)
 	bad := dirtyFields()
 	var sb strings.Builder
+	if rapid.IntRange(0, 9).Draw(t, "bom") == 0 {
+		// what spreadsheet exports start with: bytes of the first field like any others (that is what a standard parse yields)
+		sb.WriteString(utf8BOM)
+	}
 	for i := 0; i < n; i++ {
 		kind := rapid.IntRange(0, 15).Draw(t, "linekind")
 		switch {
@@ -262,6 +271,13 @@ func Classify(c Case) (bool, []string) {
 	}
 
 	// text classes
+	if strings.HasPrefix(in, utf8BOM) {
+		add("text:starts with a UTF-8 byte order mark")
+		nt = true
+	}
+	if c.Mode == "consume" && c.Kind == kBinary && c.Pre > 0 {
+		add("dst:BinaryUnmarshaler that already holds data")
+	}
 	if strings.Contains(in, `"`) {
 		add("text:quoted")
 		nt = true
